@@ -273,10 +273,13 @@ func sweepPoints(thorough bool, seed uint64) []rune {
 }
 
 func TestC09(t *testing.T) {
-	cfgs := []sweepCfg{{"xterm-256color", ""}, {"linux", "en_US.ISO8859-1"}}
+	// (ansi, pcansi, cygwin: alternate-character-set glyphs at IBM-PC code
+	// points, many of them above 0x7f)
+	cfgs := []sweepCfg{{"xterm-256color", ""}, {"linux", "en_US.ISO8859-1"}, {"ansi", "en_US.ISO8859-1"}}
 	if hx.Thorough() {
 		cfgs = []sweepCfg{{"xterm-256color", ""}, {"linux", ""}, {"vt220", ""},
-			{"xterm-256color", "en_US.ISO8859-1"}, {"linux", "en_US.KOI8-R"}, {"vt220", "en_US.ISO8859-1"}}
+			{"xterm-256color", "en_US.ISO8859-1"}, {"linux", "en_US.KOI8-R"}, {"vt220", "en_US.ISO8859-1"},
+			{"ansi", "en_US.ISO8859-1"}, {"pcansi", "C"}, {"cygwin", "en_US.KOI8-R"}}
 	}
 	cf := hx.LoadCase()
 	wi, wn := hx.Worker()
@@ -323,9 +326,14 @@ func TestC09(t *testing.T) {
 	// Fill also supplies primary content: every must-blank class through Fill
 	if cf == nil || cf.Case["kind"] == "fill" {
 		var fills []rune
+		k := 0
 		for _, r := range pts {
-			if b, _ := mustBlank(r); b && (r < 0x100 || r > 0x10ffff || r < 0 || len(fills)%7 == 0 || hx.Thorough()) {
-				fills = append(fills, r)
+			if b, _ := mustBlank(r); b {
+				// (quick tier: a seventh of them, which seventh depends on the seed)
+				k++
+				if r < 0x100 || r > 0x10ffff || r < 0 || k%7 == int(hx.Seed()%7) || hx.Thorough() {
+					fills = append(fills, r)
+				}
 			}
 		}
 		for ci, c := range cfgs {
